@@ -22,6 +22,7 @@ type ProcShape struct {
 	Name   string
 	Lines  []string // script lines; MARK is replaced by the marker assignment
 	Leaves int      // number of long-living processes expected to carry the marker
+	AllowFailure bool // the task is marked allow_failure
 	// DetachedIgnorer: the shape contains a process that ignores SIGINT and does not hold the task's output pipe while the
 	// process the runner waits for ends on SIGINT: it outlives the report until the kill timeout (known finding D9)
 	DetachedIgnorer bool
@@ -44,6 +45,10 @@ func ProcShapes() []ProcShape {
 		{Name: "ignore-int-and-fork-grandchild", Lines: []string{`MARK bash -c 'trap "" INT; sleep 300 & sleep 301; wait'`}, Leaves: 2},
 		{Name: "slow-exit-on-int", Lines: []string{`MARK bash -c 'trap "sleep 0.1; exit 0" INT; sleep 300 & wait'`}, Leaves: 1},
 		{Name: "two-commands-sequential", Lines: []string{"MARK true", `MARK bash -c 'sleep 300 & wait'`}, Leaves: 1},
+		{Name: "stdin-redirected-parent-with-children", Lines: []string{`MARK bash -c 'sleep 300 & sleep 301 & wait' </dev/null`}, Leaves: 2},
+		{Name: "pipe-consumer-with-children", Lines: []string{`echo x | MARK bash -c 'cat >/dev/null; sleep 300 & sleep 301; wait'`}, Leaves: 2},
+		{Name: "heredoc-stdin-with-children", Lines: []string{"MARK bash -c 'cat >/dev/null; sleep 300 & wait' <<EOT\nline\nEOT"}, Leaves: 1},
+		{Name: "ignore-int-last-allow-failure", Lines: []string{`MARK bash -c 'trap "" INT; sleep 300'`}, Leaves: 1, AllowFailure: true},
 		{Name: "leader-dies-ignorer-detached-from-pipes", Lines: []string{`MARK bash -c '(trap "" INT; exec sleep 300) >/dev/null 2>&1 </dev/null & wait'`}, Leaves: 1, DetachedIgnorer: true},
 		{Name: "interp-background-ignores-int", Lines: []string{`MARK bash -c 'trap "" INT; exec sleep 300' &`, "MARK sleep 301"}, Leaves: 2, DetachedIgnorer: true},
 	}
@@ -138,12 +143,12 @@ func RunProcCase(seed int64, o ProcOpts) *HistResult {
 			l = strings.ReplaceAll(l, "NEST", shQuote(nest))
 			script = append(script, strings.ReplaceAll(l, "MARK", "PXV_MARK={{.mark}}"))
 		}
-		return definition.PipelineDef{Concurrency: 4, Tasks: map[string]definition.TaskDef{"tree": {Script: script}}, SourcePath: "gen"}
+		return definition.PipelineDef{Concurrency: 4, Tasks: map[string]definition.TaskDef{"tree": {Script: script, AllowFailure: sh.AllowFailure}}, SourcePath: "gen"}
 	}
 	specs := []gen.PipeSpec{{Name: "target", Def: mkDef(shape), Graph: gen.Graph{Names: []string{"tree"}, Deps: map[string][]string{}}}}
 	otherShapes := []ProcShape{}
 	for i := 0; i < o.Others; i++ {
-		sh := shapes[r.Intn(len(shapes)-2)] // not the detached ones
+		sh := shapes[r.Intn(len(shapes)-6)] // not the detached / stdin ones
 		otherShapes = append(otherShapes, sh)
 		specs = append(specs, gen.PipeSpec{Name: fmt.Sprintf("other%d", i), Def: mkDef(sh), Graph: gen.Graph{Names: []string{"tree"}, Deps: map[string][]string{}}})
 	}
@@ -267,6 +272,11 @@ func RunProcCase(seed int64, o ProcOpts) *HistResult {
 	} else {
 		if elapsedBeats > limitBeats {
 			find("C20:finish-takes-longer-than-kill-timeout", "shape %s: the job was reported finished %v after the cancel (kill timeout %v + 5 s allowance, %d heartbeats)", shape.Name, tf.Sub(tCancel), o.KillTimeout, elapsedBeats)
+		}
+		// C04 with real processes: a job canceled while its process tree was up must end reported canceled, also when the
+		// processes had to be killed because they ignore the interrupt
+		if j, ok := sys.ReadJob(target); ok && upAtCancel >= shape.Leaves && o.CancelAt == 0 && !j.Canceled {
+			res.Findings = append(res.Findings, Finding{Props: []string{"C04", "C20"}, Sig: "C04:canceled-job-not-reported-canceled", Detail: fmt.Sprintf("shape %s: the job was canceled while its %d processes were running and is reported completed=%v canceled=false error=%q", shape.Name, upAtCancel, j.Completed, j.LastError), Step: -1})
 		}
 		if len(aliveAtReport) > 0 {
 			// the signature names the shape: a known finding for one shape never hides the same symptom for another
